@@ -98,3 +98,54 @@ Proof.
   destruct (c_sw s Ci t g c f Hnr Hc) as [_ [Hsf _]].
   apply (start_value_history ops c f v Hsf Hv).
 Qed.
+
+(* ---------------- the wake-up of a caller joining its child ---------------- *)
+Lemma futs_finish_root s t x : idle s t = true -> k_group (tasks s t) = None ->
+  futs (fst (step s (AFinish t x))) = futs s.
+Proof.
+  intros Hi Hg. cbn [step actor]. rewrite Hi. cbn [negb]. unfold puppet_finish.
+  assert (E : k_group (tasks (begin_act s t) t) = None) by (unfold begin_act; tcase t t; [exact Hg|contradiction]).
+  rewrite E. cbn [fst]. rewrite finish_task_eq. cbn zeta.
+  match goal with |- context [k_group ?k] => destruct (k_group k) end; reflexivity.
+Qed.
+
+(* the join future of the caller gets a value only in the step in which the child's coroutine ends (AFinish of the
+   child sets the finished event): the wake-up by the event happens in, not before, the child's last step *)
+Theorem start_join_event_wakeup s o t ch sc e f v : reach s ->
+  k_ctl (tasks s t) = CStartJoin ch sc e (Some f) -> f_st (futs s f) <> FRes v ->
+  f_st (futs (fst (step s o)) f) = FRes v ->
+  exists x, o = AFinish ch x /\ idle s ch = true /\ v = 1.
+Proof.
+  intros R Hc Hn Hv. destruct (reach_inv s R) as [[K Ci G J] Hrun].
+  assert (Hnr : running s <> Some t) by (rewrite Hrun; discriminate).
+  pose proof (j_join s J t ch sc e f Hnr Hc) as Hin.
+  destruct (c_sj s Ci t ch sc e (Some f) Hnr Hc) as [Hal Hg].
+  destruct (step_fres s o R) as [_ [F2 _]]. destruct (F2 f v Hv) as [H|HQ]; [contradiction|].
+  assert (Hchg : fst (step s o) <> s) by (intros E; rewrite E in Hv; contradiction).
+  destruct o; cbn [Qstep] in HQ; try contradiction.
+  - destruct HQ as [Hs _]. exfalso. exact (kk_es s J f _ t0 Hin Hs).
+  - destruct HQ as [Hin' ->].
+    destruct (idle s t0) eqn:Ei; [|exfalso; apply Hchg, (step_not_idle s (AFinish t0 v0) t0 eq_refl Ei)].
+    pose proof (kk_ee s J f _ _ Hin' Hin) as Ee.
+    destruct (k_group (tasks s t0)) as [g0|] eqn:Eg.
+    + assert (t0 = ch) by (apply (e_inj s J t0 ch); [congruence|exact Hg|exact Ee]). subst t0. eauto.
+    + exfalso. rewrite (futs_finish_root s t0 v0 Ei Eg) in Hv. contradiction.
+  - destruct h as [t0|t0 f0|c0|t0|f0 tm|c0 tm]; try contradiction.
+    + destruct HQ as [[g [_ Hf]] _]. exfalso. exact (kk_eg s J f _ g Hin Hf).
+    + destruct HQ as [-> _]. exfalso. destruct (in_dec_h (HSleepDone f0 tm) (ready s)) as [Hi|Hni].
+      * apply (kk_et s J f0 _ Hin). left. eauto.
+      * apply Hchg, run_notin, Hni.
+Qed.
+
+Example ex_join_event_wakeup :
+  let s := final step init [ANewRoot; AGroupNew 1; AGroupEnter 1 1; AStart 1 1; ANativeCancel 1; ARun (HWake 1 4);
+                            ARun (HStep 2); ARun (HDeliver 2); ARun (HWake 2 6)] in
+  k_ctl (tasks s 1) = CStartJoin 2 3 (ECancel 0) (Some 5) /\ f_st (futs s 5) = FPend /\
+  f_st (futs (fst (step s (AFinish 2 0))) 5) = FRes 1.
+Proof. vm_compute. auto. Qed.
+
+Example ex_start_history :
+  let ops := [ANewRoot; AGroupNew 1; AGroupEnter 1 1; AStart 1 1; ARun (HStep 2); AStarted 2 42] in
+  k_ctl (tasks (final step init ops) 1) = CStartWait 1 2 4 /\
+  snd (step (final step init ops) (ARun (HWake 1 4))) = RRet 42.
+Proof. vm_compute. auto. Qed.
